@@ -55,7 +55,7 @@ def run(chk):
     w = make_world(chk.repo)
     m = w.module(MOD)
     chk.files = w.files
-    dims = (1, 2) if chk.tier == "quick" else (1, 2, 3, 4)
+    dims = (1, 2, 3, 4) if chk.tier == "quick" else (1, 2, 3, 4, 5)
     chk.rule("C01.R1", "inferred result polynomial of each operator equals the mathematical definition "
                        "(div = sum_i d_i u_i; lap = sum_i d_ii u_0; veclap_j = sum_i d_ii u_j; adv_k = sum_j u_j d_j u_k); "
                        "no time derivative, no parameter atom", floor=8 * 2)
